@@ -436,6 +436,12 @@ static void ProcessFile(char const* FileName, LongWord Offset) {
                        Bei Mico8 nur 4 Byte (davon ein Wort=18 Bit) pro Zeile! */
 
                     TransLen = min(LineLen, ErgLen);
+                    /* only whole target words per line: the byte swap and the
+                       address step below both count in units of Gran */
+                    if ((Gran <= MaxLineLen) && (TransLen % Gran)) {
+                        TransLen = (TransLen > Gran) ? TransLen - (TransLen % Gran)
+                                                     : min((LongWord)Gran, (LongWord)ErgLen);
+                    }
                     if ((ActFormat == eHexFormatIntel32)
                         && ((ErgStart & 0xffff) + (TransLen / Gran) >= 0x10000)) {
                         TransLen  = Gran * (0x10000 - (ErgStart & 0xffff));
@@ -537,10 +543,10 @@ static void ProcessFile(char const* FileName, LongWord Offset) {
                     if (MultiMode == 1) {
                         switch (Gran) {
                         case 4:
-                            DSwap(Buffer, TransLen);
+                            DSwap(Buffer, TransLen - (TransLen % 4));
                             break;
                         case 2:
-                            WSwap(Buffer, TransLen);
+                            WSwap(Buffer, TransLen - (TransLen % 2));
                             break;
                         case 1:
                             break;
